@@ -48,5 +48,21 @@ func IsNoResponseCode(code codes.Code, noRespValue uint32) error {
 			return ErrMessageNotInterested
 		}
 	}
+	// RFC 7967 suppresses whole response classes (bit value 2: 2.xx, 8: 4.xx, 16: 5.xx), not just the
+	// codes enumerated above: e.g. 2.31 Continue, 4.08 or 4.29 belong to a suppressed class as well.
+	switch uint8(code) >> 5 {
+	case 2:
+		if noRespValue&2 != 0 {
+			return ErrMessageNotInterested
+		}
+	case 4:
+		if noRespValue&8 != 0 {
+			return ErrMessageNotInterested
+		}
+	case 5:
+		if noRespValue&16 != 0 {
+			return ErrMessageNotInterested
+		}
+	}
 	return nil
 }
